@@ -52,15 +52,33 @@ def token(e: Eff, s: str, fp: str) -> Optional[str]:
     return None
 
 
+def _plain_iter(e: Optional[ast.AST]) -> str:
+    """The iterable with order-preserving copies stripped: list(x) / tuple(x) / iter(x) walk x."""
+    while isinstance(e, ast.Call) and isinstance(e.func, ast.Name) and e.func.id in ("list", "tuple", "iter") and len(e.args) == 1 and not e.keywords:
+        e = e.args[0]
+    return ast.unparse(e) if e is not None else ""
+
+
 def _items_loop(fi: FunctionInfo, sums: Sequence[PathSummary]) -> Tuple[str, str, int]:
     s = fi.param_names()[0]
     found = set()
     for sm in sums:
         for e in sm.effects:
-            if e.kind == "for" and ast.unparse(e.value) == f"{s}.items()" and isinstance(e.target, ast.Tuple) and len(e.target.elts) == 2 and all(isinstance(x, ast.Name) for x in e.target.elts):
+            if e.kind == "for" and _plain_iter(e.value) == f"{s}.items()" and isinstance(e.target, ast.Tuple) and len(e.target.elts) == 2 and all(isinstance(x, ast.Name) for x in e.target.elts):
                 found.add((e.target.elts[0].id, e.target.elts[1].id, e.line))
+    if not found:
+        # the items are walked through something else: sorted(self.items(), ..), reversed(..), a filtered / re-ordered copy
+        for sm in sums:
+            for e in sm.effects:
+                if e.kind == "for" and isinstance(e.value, ast.AST) and any(isinstance(n, ast.Call) and ast.unparse(n) == f"{s}.items()" for n in ast.walk(e.value)):
+                    raise OrderViolation(f"the serializer walks {ast.unparse(e.value)[:100]} instead of {s}.items() itself: the properties are no longer written in the mapping's own order "
+                                         "(or not all of them), so the text does not load back with the same keys in the same order")
     require(len(found) == 1, f"{fi.fq}: expected one 'for key, value in self.items()' loop, found {sorted(found)}")
     return next(iter(found))
+
+
+class OrderViolation(Exception):
+    pass
 
 
 def _item_forms(k: str, v: str, a: Dict[str, bool], VN: str, MULTI: str) -> str:
@@ -77,7 +95,11 @@ def base_items(ctx: Ctx) -> None:
     fi = ctx.p.func(BASE_SERIALIZE)
     sums = sums_of(ctx, fi)
     s, fp = fi.param_names()[:2]
-    k, v, line = _items_loop(fi, sums)
+    try:
+        k, v, line = _items_loop(fi, sums)
+    except OrderViolation as ex:
+        ctx.bad("R-ORDER", fi, "every item of the mapping is written, in the mapping's own order", str(ex), node=fi.node)
+        return
     VN, MULTI = f"{v} is None", f"{k} in {_multi(ctx)}"
     decs = []
     for sm in sums:
@@ -106,7 +128,11 @@ def ssc_chart_items(ctx: Ctx, judge_skip_only: bool = False) -> None:
     fi = p.func(SSCCHART_SERIALIZE)
     sums = sums_of(ctx, fi)
     s, fp = fi.param_names()[:2]
-    k, v, line = _items_loop(fi, sums)
+    try:
+        k, v, line = _items_loop(fi, sums)
+    except OrderViolation as ex:
+        ctx.bad("R-ORDER", fi, "every item of the chart is written, in the mapping's own order", str(ex), node=fi.node)
+        return
     d = p.descriptors(p.cls("simfile.ssc.SSCChart")).get("notes")
     require(d is not None, "SSCChart.notes descriptor not found")
     ctx.expect("R-TABLE", p.cls("simfile.ssc.SSCChart"), "SSCChart.notes is NOTES with alias NOTES2", (d.key, d.alias) == ("NOTES", "NOTES2"), repr(d), f"declaration is {d!r}; the format's note data keys are NOTES / NOTES2")
